@@ -66,8 +66,8 @@ def _worker_init():
     _worker_ready = True
 
 
-class _Timeout(Exception):
-    pass
+class _Timeout(BaseException):
+    """per-task alarm: BaseException so that it is never mistaken for an exception of the code under verification"""
 
 
 def _alarm(signum, frame):
